@@ -256,6 +256,13 @@ impl PrimitiveMagneticSymmetrySearch {
             }
         }
 
+        if magnetic_operations.is_empty() {
+            debug!(
+                "No magnetic symmetry operations are found. Consider increasing symprec and mag_symprec."
+            );
+            return Err(MoyoError::TooSmallToleranceError);
+        }
+
         // Check closure
         if !Self::check_closure(
             &magnetic_operations,
